@@ -711,6 +711,9 @@ pub fn crash_verdict(t: &Trace, states: &States, acks: &[(u64, u64)], cut: u64, 
         }
         return format!("FAIL crash-image-does-not-reopen: {}", line.split(' ').take(3).collect::<Vec<_>>().join("_"));
     };
+    if line.contains("CLOCK-BEHIND") {
+        return format!("FAIL after-recovery-a-clock-shard-is-below-a-timestamp-recovered-into-it {}", line.split("CLOCK-BEHIND").nth(1).unwrap_or("").split(" PART-BROKEN").next().unwrap_or("").trim());
+    }
     if line.contains("PART-BROKEN") {
         return format!("FAIL after-recovery-a-data-block-is-neither-free-nor-owned-or-is-both {}", line.split("PART-BROKEN").nth(1).unwrap_or("").trim());
     }
@@ -990,6 +993,62 @@ pub fn run(opts: &Opts) -> i32 {
 
 /// engine `lag` (C19): workloads that never flush and never close; after a settle time everything
 /// accepted before it must be on the device.  Shard and worker counts follow the CPUs the child sees.
+/// child, directed (C19 on a device that was full for a while): the device is filled, a write is
+/// accepted that does not fit (the periodic passes are refused for space and requeue it), then a
+/// durable key is deleted -- no flush anywhere after the set-up.  Once the space is back, the write
+/// must reach the device within the bound, by the coordinator's own ticks.
+pub fn lagfull(opts: &Opts) -> i32 {
+    let path = opts.str("path", "/verif/.build/cases/lagfull.feox");
+    let _ = std::fs::remove_file(&path);
+    let store = match FeoxStore::builder().device_path(path.clone()).file_size(24 * 4096).hash_bits(6).enable_caching(false).no_memory_limit().build() {
+        Ok(s) => s,
+        Err(e) => {
+            println!("lagfull FAIL cannot-create-store {e}");
+            return 0;
+        }
+    };
+    let value = |i: u64| value_for(i, 3000);
+    let mut fillers = Vec::new();
+    for i in 0..8u64 {
+        let k = format!("filler{i}").into_bytes();
+        if store.insert(&k, &value(i)).is_ok() && store.flush().is_ok() {
+            fillers.push(k);
+        }
+    }
+    // the device (8 data blocks) is full now
+    let victim = b"victim".to_vec();
+    if let Err(e) = store.insert(&victim, &value(99)) {
+        println!("lagfull FAIL victim-refused {e}");
+        return 0;
+    }
+    std::thread::sleep(std::time::Duration::from_millis(1500));
+    let published = |store: &FeoxStore, key: &[u8]| store.verif_snapshot().iter().any(|r| r.key == key && r.sector != 0);
+    if published(&store, &victim) {
+        println!("lagfull ok device-was-not-full");
+        std::mem::forget(store);
+        return 0;
+    }
+    let t0 = std::time::Instant::now();
+    if let Err(e) = store.delete(&fillers[0]) {
+        println!("lagfull FAIL delete-refused {e}");
+        return 0;
+    }
+    let mut verdict = format!("FAIL write-accepted-while-the-device-was-full-is-still-not-on-the-device-{}ms-after-space-was-freed", 4000);
+    while t0.elapsed() < std::time::Duration::from_millis(4000) {
+        if published(&store, &victim) {
+            verdict = format!("ok durable-after-ms={}", t0.elapsed().as_millis());
+            break;
+        }
+        std::thread::sleep(std::time::Duration::from_millis(50));
+    }
+    println!("lagfull {verdict}");
+    use std::io::Write;
+    let _ = std::io::stdout().flush();
+    std::mem::forget(store);
+    let _ = std::fs::remove_file(&path);
+    unsafe { libc::_exit(0) }
+}
+
 pub fn run_lag(opts: &Opts) -> i32 {
     let dir = opts.str("out", "/verif/.build/cases/lag");
     let seed = opts.u64("seed", 1);
@@ -997,6 +1056,19 @@ pub fn run_lag(opts: &Opts) -> i32 {
     let per = opts.u64("n", if opts.thorough() { 20 } else { 1 });
     let keep = format!("{dir}/images");
     std::fs::create_dir_all(&keep).unwrap();
+    {
+        let mut out = Out::new(&dir, "full");
+        for k in 0..2 {
+            let line = run_child(&["lagfullchild".into(), format!("path={keep}/lagfull_{k}.feox")], 120).unwrap_or_else(|| "SPAWN-FAILED".into());
+            let verdict = match line.strip_prefix("lagfull ") {
+                Some(v) if v.starts_with("ok") => "ok".to_string(),
+                Some(v) => v.to_string(),
+                None => format!("FAIL full-device-child-died-or-hung {}", line.chars().take(80).collect::<String>()),
+            };
+            out.emit3(&format!("note lag full-device-then-freed run={k} {}", line.replace(' ', "_")), "note", &verdict);
+        }
+        out.finish();
+    }
     let mut handles = Vec::new();
     for sh in 0..shards {
         let dir = dir.clone();
@@ -1029,6 +1101,9 @@ pub fn run_lag(opts: &Opts) -> i32 {
                     "noflush=1".into(),
                     format!("settle_ms={settle}"),
                     format!("idle_ms={idle}"),
+                    // a quarter of the workloads see one device call fail once, early on: the pass that hits
+                    // it is requeued and the coordinator must come back to the shard by itself
+                    format!("faults={}", if sh % 4 == 1 { format!("{}:before", rng.range(6, 30)) } else { String::new() }),
                     format!("noise={noise}"),
                     "ttl=0".into(),
                     "close=0".into(),
@@ -1052,6 +1127,11 @@ pub fn run_lag(opts: &Opts) -> i32 {
                             Err(_) => break None,
                         }
                     });
+                if g.as_deref().map_or(false, |s| s.starts_with("tracegen-open-error")) {
+                    // the injected failure hit the creation of the device: reported as an error, nothing to wait for
+                    out.emit3("note lag open-reported-error", "note", "ok");
+                    continue;
+                }
                 if g.as_deref().map_or(true, |s| !s.starts_with("tracegen-done")) {
                     out.emit3(&format!("note tracegen-failed {:?}", g), "note", "FAIL workload-child-failed-or-hung");
                     continue;
